@@ -853,3 +853,105 @@ Qed.
 
 Theorem reachable_sample_inv att h : Forall byte_op h -> sample_inv (apu_run (apu_new att) h).
 Proof. intros H. apply sample_inv_run; [exact H|apply inv_init]. Qed.
+
+(* ------------------------------------------------------------------------------------------------- *)
+(* pacing over whole histories: arbitrary register traffic that does not touch NR52, sound on, outputs attached *)
+Fixpoint hist_pairs (h : list apu_op) (s : apu) : N :=
+  match h with
+  | [] => 0
+  | OWrite a v :: r => hist_pairs r (apu_bus_write s a v)
+  | OCycle :: r => N.of_nat (length (snd (apu_end_machine_cycle s))) + hist_pairs r (fst (apu_end_machine_cycle s))
+  end.
+
+Lemma end_cycle_out s :
+  snd (apu_end_machine_cycle s) =
+  snd (apu_tick_clock s) ++ snd (apu_tick_clock (tick s)) ++ snd (apu_tick_clock (tick (tick s))) ++
+  snd (apu_tick_clock (tick (tick (tick s)))).
+Proof.
+  unfold apu_end_machine_cycle, tick.
+  destruct (apu_tick_clock s) as [s1 o1]; cbn [fst snd].
+  destruct (apu_tick_clock s1) as [s2 o2]; cbn [fst snd].
+  destruct (apu_tick_clock s2) as [s3 o3]; cbn [fst snd].
+  destruct (apu_tick_clock s3) as [s4 o4]; cbn [fst snd]. reflexivity.
+Qed.
+
+Lemma cycle_pairs s :
+  N.of_nat (length (snd (apu_end_machine_cycle s))) = run_pairs [UTick; UTick; UTick; UTick; UClear] s.
+Proof.
+  rewrite end_cycle_out, !app_length, !Nat2N.inj_add. cbn [run_pairs]. lia.
+Qed.
+
+Lemma pairs_between_split k a b :
+  k < 4194304 -> pairs_between k (a + b) = pairs_between k a + pairs_between ((k + a) mod 4194304) b.
+Proof.
+  intros Hk. unfold pairs_between. rewrite (pairs_upto_shift (k + a) b).
+  pose proof (pairs_upto_mono k a). pose proof (pairs_upto_mono (k + a) b).
+  replace (k + (a + b)) with (k + a + b) by lia. lia.
+Qed.
+
+Lemma pace_inv_write s a v : a <> 0xFF26 -> pace_inv true true s -> pace_inv true true (apu_bus_write s a v) /\
+  phase (apu_bus_write s a v) = phase s.
+Proof.
+  intros Hne (Hwf & Hon & Hatt).
+  destruct (clk_write s a v Hne) as [T F].
+  assert (Hp : phase (apu_bus_write s a v) = phase s) by (unfold phase, norm_ticks; rewrite T; reflexivity).
+  split; [|exact Hp]. split; [apply clk_wf_write; exact Hwf|].
+  split.
+  - rewrite is_on_write. destruct (N.eqb_spec a 0xFF26); [contradiction|exact Hon].
+  - revert Hne. clear - Hatt. intros Hne. rewrite <- Hatt.
+    addr_chain; try contradiction;
+      try (unfold WriteNR10, WriteNR11, WriteNR12, WriteNR13, WriteNR14, WriteNR21, WriteNR22, WriteNR23, WriteNR24,
+             WriteNR30, WriteNR31, WriteNR32, WriteNR33, WriteNR34, WriteNR41, WriteNR42, WriteNR43, WriteNR44,
+             WriteNR50, WriteNR51, sq_write_nrx2; destruct (ctOn (ctl s)); reflexivity).
+    repeat match goal with |- context [if ?b then _ else _] => destruct b end; try reflexivity.
+    apply (frame_WWave s a v).
+Qed.
+
+Lemma pace_inv_run l : forall s, pace_inv true true s -> pace_inv true true (fold_left exec_u l s).
+Proof.
+  induction l as [|u l IH]; intros s H; [exact H|]. cbn [fold_left]. apply IH.
+  destruct u; cbn [exec_u]; [apply pace_inv_tick; exact H|exact H].
+Qed.
+
+Theorem hist_pairs_on h : forall s,
+  pace_inv true true s ->
+  Forall (fun o => match o with OWrite a v => a <> 0xFF26 | OCycle => True end) h ->
+  hist_pairs h s = pairs_between (phase s) (4 * n_cycles h).
+Proof.
+  induction h as [|o h IH]; intros s Hinv Hall.
+  - cbn [hist_pairs n_cycles]. unfold pairs_between. rewrite N.mul_0_r, N.add_0_r. lia.
+  - inversion Hall as [|? ? Ho Hh]; subst. destruct o as [a v|]; cbn [hist_pairs n_cycles].
+    + destruct (pace_inv_write s a v Ho Hinv) as [Hi Hp]. rewrite (IH _ Hi Hh), Hp. reflexivity.
+    + rewrite cycle_pairs, (run_pairs_on _ s Hinv). cbn [n_ticks].
+      rewrite end_cycle_ticks, <- fold_cycle.
+      pose proof (pace_inv_run [UTick; UTick; UTick; UTick; UClear] s Hinv) as Hi.
+      rewrite (IH _ Hi Hh).
+      destruct Hinv as (Hwf & _).
+      destruct (clk_run [UTick; UTick; UTick; UTick; UClear] s Hwf) as (_ & P & _). cbv zeta in P. cbn [n_ticks] in P.
+      rewrite P. replace (4 * N.succ (n_cycles h)) with (4 + 4 * n_cycles h) by lia.
+      rewrite (pairs_between_split (phase s) 4 (4 * n_cycles h) (phase_lt s Hwf)).
+      replace (N.succ (N.succ (N.succ (N.succ 0)))) with 4 by reflexivity. reflexivity.
+Qed.
+
+(* from audio.New with outputs: the closed form of the statement *)
+Theorem pairs_from_new h :
+  Forall (fun o => match o with OWrite a v => a <> 0xFF26 | OCycle => True end) h ->
+  let n := 4 * n_cycles h in
+  hist_pairs h (apu_new true) = n / 4194304 * 44150 + (n mod 4194304) / 95.
+Proof.
+  intros Hall. cbv zeta. rewrite hist_pairs_on; [|split; [apply clk_wf_init|split; reflexivity]|exact Hall].
+  assert (E : phase (apu_new true) = 0) by reflexivity. rewrite E. apply pairs_between_0.
+Qed.
+
+Theorem range_reachable (att : bool) (h : list apu_op) (l : list uop) (x y : N) :
+  Forall byte_op h ->
+  let s := fold_left exec_u l (apu_run (apu_new att) h) in
+  In (x, y) (snd (apu_tick_clock s)) ->
+  (0 <= inj x / 6400 /\ inj x / 6400 < 1)%Q /\ (0 <= inj y / 6400 /\ inj y / 6400 < 1)%Q.
+Proof.
+  intros Hb s Hin. apply (emitted_in_range s x y); [|exact Hin].
+  unfold s. clear Hin s. pose proof (reachable_sample_inv att h Hb) as H.
+  generalize dependent (apu_run (apu_new att) h). intros s0 H.
+  revert s0 H. induction l as [|u l IH]; intros s0 H; [exact H|].
+  cbn [fold_left]. apply IH. destruct u; cbn [exec_u]; [apply inv_tick|apply inv_clear]; exact H.
+Qed.
